@@ -128,17 +128,29 @@ Print Assumptions C04_norm_int_meaning.
 
 (* enums as root schemas: [norm_enum] is computed from the declaration alone
    (README: value 0 is UNSPECIFIED, explicit or not; the other options 1..n in
-   order; reflected names without the prefix; descriptions as declared) *)
+   order; reflected names without the prefix; descriptions, option info and info
+   fields as declared) *)
 Theorem C04_enum : forall e, enum_rt e = true -> read_enum (write_enum e) = Ok (norm_enum e).
 Proof. exact c04_enum. Qed.
 Print Assumptions C04_enum.
+
+(* non-vacuity: an enum with an explicit zero option, a prefixed and a short option
+   name, option info and an info field lies in the fragment and reads back as declared *)
+Example C04_enum_example :
+  let e := ED [100] [67;95] [([85;78;83;80;69;67;73;70;73;69;68], [110], [([104], [48])]);
+                              ([67;95;82], [], [([104], [102;102])]); ([71], [103], [])]
+              [([104], [72], [100])] in
+  enum_rt e = true /\ read_enum (write_enum e) = Ok (norm_enum e) /\
+  map (fun o => snd (fst (fst o))) (re_options (norm_enum e)) = [0%Z; 1%Z; 2%Z] /\
+  map (fun o => fst (fst (fst o))) (re_options (norm_enum e)) = [[85;78;83;80;69;67;73;70;73;69;68]; [82]; [71]].
+Proof. cbv zeta. repeat split; vm_compute; reflexivity. Qed.
 
 (* ... except when the explicit first option is some other name ending in
    UNSPECIFIED: the reader derives the prefix from it *)
 Theorem C04_enum_unspecified_refuted :
   exists e, read_enum (write_enum e) <> Ok (norm_enum e).
 Proof.
-  exists (ED [] [67;95] [([88;95;85;78;83;80;69;67;73;70;73;69;68], []); ([82], [])]).
+  exists (ED [] [67;95] [([88;95;85;78;83;80;69;67;73;70;73;69;68], [], []); ([82], [], [])] []).
   vm_compute. discriminate.
 Qed.
 Print Assumptions C04_enum_unspecified_refuted.
@@ -147,7 +159,7 @@ Print Assumptions C04_enum_unspecified_refuted.
 Theorem C04_enum_description_refuted :
   exists e, read_enum (write_enum e) <> Ok (norm_enum e).
 Proof.
-  exists (ED [35;32;104] [67;95] [([82], [])]).
+  exists (ED [35;32;104] [67;95] [([82], [], [])] []).
   vm_compute. discriminate.
 Qed.
 Print Assumptions C04_enum_description_refuted.
